@@ -165,6 +165,7 @@ type rw struct {
 	makeChan   map[*ast.CallExpr]bool
 	makeNamed  map[*ast.CallExpr]*types.Named
 	namedExpr  map[ast.Expr]bool
+	nilNamed   map[*ast.Ident]*types.Named // `nil` used as a value of a named channel type
 	namedSpec  map[*ast.TypeSpec]bool
 	recvCalls  map[*ast.CallExpr]bool
 	sendCalls  map[*ast.CallExpr]bool
@@ -249,6 +250,7 @@ func (r *rw) prepass() {
 	r.makeChan = map[*ast.CallExpr]bool{}
 	r.makeNamed = map[*ast.CallExpr]*types.Named{}
 	r.namedExpr = map[ast.Expr]bool{}
+	r.nilNamed = map[*ast.Ident]*types.Named{}
 	r.namedSpec = map[*ast.TypeSpec]bool{}
 	r.recvCalls = map[*ast.CallExpr]bool{}
 	r.sendCalls = map[*ast.CallExpr]bool{}
@@ -355,7 +357,26 @@ func (r *rw) prepass() {
 					r.timeIdents[id] = true
 				}
 			}
+		case *ast.BinaryExpr:
+			if x.Op == token.EQL || x.Op == token.NEQ {
+				for _, pair := range [][2]ast.Expr{{x.X, x.Y}, {x.Y, x.X}} {
+					if id, ok := unparen(pair[0]).(*ast.Ident); ok && id.Name == "nil" {
+						if _, isNil := r.info.Uses[id].(*types.Nil); isNil {
+							if n := namedChan(r.info.TypeOf(pair[1])); n != nil {
+								r.nilNamed[id] = n
+							}
+						}
+					}
+				}
+			}
 		case *ast.Ident:
+			if x.Name == "nil" {
+				if _, isNil := r.info.Uses[x].(*types.Nil); isNil {
+					if n := namedChan(r.info.TypeOf(x)); n != nil {
+						r.nilNamed[x] = n // the named channel type becomes a struct: its nil is the zero struct
+					}
+				}
+			}
 			if x.Name == "mcrt" || x.Name == "xtime" {
 				if obj := r.info.ObjectOf(x); obj != nil {
 					if _, isPkg := obj.(*types.PkgName); !isPkg {
@@ -554,6 +575,15 @@ func (r *rw) post(c *astutil.Cursor) bool {
 			}
 			mk := call(&ast.IndexExpr{X: r.mcrt("Make"), Index: elem}, size, strLit(r.site(n.Pos())))
 			c.Replace(&ast.CompositeLit{Type: n.Args[0], Elts: []ast.Expr{mk}})
+		}
+	case *ast.Ident:
+		if named := r.nilNamed[n]; named != nil {
+			te, err := r.typeExpr(named)
+			if err != nil {
+				r.err = fmt.Errorf("%s: cannot express type %s: %v", r.site(n.Pos()), named, err)
+				return true
+			}
+			c.Replace(&ast.ParenExpr{X: &ast.CompositeLit{Type: te}})
 		}
 	case *ast.SelectorExpr:
 		if id, ok := n.X.(*ast.Ident); ok && r.timeIdents[id] {
